@@ -478,6 +478,11 @@ func (w *World) doResume(a *Actor) {
 	if w.Cfg.SweepKind != "" && !r.Cached {
 		n := w.sweepCount
 		w.sweepCount++
+		if w.Cfg.SweepKind == "count" && a.pass != nil {
+			if o := ownerOfPass(a.pass); o != nil && isTeardownOwner(o) {
+				w.sweepTeardown = append(w.sweepTeardown, n)
+			}
+		}
 		if n == w.Cfg.SweepAt {
 			switch w.Cfg.SweepKind {
 			case "err-before":
